@@ -2031,4 +2031,759 @@ theorem cloneSel_accepted (s : G) (w : Uid) (roots : List Uid) (hi : Inv s) (hwb
   rw [seqOps_cons_ok _ _ _ _ e]
   rfl
 
+/-! ### sibling order: re-setting the parent of a child moves it to the end of the list
+
+  `c.parent = p` removes `c` from `p.children` and appends it again.  The children of a clone are re-adopted one by
+  one in index order, so that the list is rotated once around and ends up in the original order. -/
+
+/-- the entries `≥ A` followed by the entries `< A` -/
+def rot (A : Nat) (L : List Uid) : List Uid :=
+  L.filter (fun x => decide (A ≤ x)) ++ L.filter (fun x => decide (x < A))
+
+theorem mem_rot (A : Nat) (L : List Uid) (x : Uid) : x ∈ rot A L ↔ x ∈ L := by
+  unfold rot
+  rw [List.mem_append, List.mem_filter, List.mem_filter]
+  constructor
+  · rintro (h | h) <;> exact h.1
+  · intro h
+    by_cases e : A ≤ x
+    · exact Or.inl ⟨h, by simpa using e⟩
+    · exact Or.inr ⟨h, by simpa using Nat.lt_of_not_le e⟩
+
+theorem rot_succ_of_not_mem (A : Nat) (L : List Uid) (h : A ∉ L) : rot (A + 1) L = rot A L := by
+  unfold rot
+  congr 1
+  · apply List.filter_congr
+    intro x hx
+    have : x ≠ A := fun e => h (e ▸ hx)
+    have h1 : (A + 1 ≤ x) ↔ (A ≤ x) := by uomega
+    simp [h1]
+  · apply List.filter_congr
+    intro x hx
+    have : x ≠ A := fun e => h (e ▸ hx)
+    have h1 : (x < A + 1) ↔ (x < A) := by uomega
+    simp [h1]
+
+theorem rot_succ_of_mem (A : Nat) (L : List Uid) (h : A ∈ L) (hs : L.Pairwise (· < ·)) :
+    (rot A L).erase A ++ [A] = rot (A + 1) L := by
+  obtain ⟨lo, hi, rfl⟩ := List.append_of_mem h
+  obtain ⟨_, h2, h3⟩ := List.pairwise_append.mp hs
+  obtain ⟨h4, _⟩ := List.pairwise_cons.mp h2
+  have hlo : ∀ x ∈ lo, x < A := fun x hx => h3 x hx A List.mem_cons_self
+  have hhi : ∀ x ∈ hi, A < x := h4
+  have f1 : lo.filter (fun x => decide (A ≤ x)) = [] :=
+    List.filter_eq_nil_iff.mpr (fun x hx => by have := hlo x hx; simp; uomega)
+  have f2 : hi.filter (fun x => decide (A ≤ x)) = hi :=
+    List.filter_eq_self.mpr (fun x hx => by have := hhi x hx; simp; uomega)
+  have f3 : lo.filter (fun x => decide (x < A)) = lo :=
+    List.filter_eq_self.mpr (fun x hx => by have := hlo x hx; simpa using this)
+  have f4 : hi.filter (fun x => decide (x < A)) = [] :=
+    List.filter_eq_nil_iff.mpr (fun x hx => by have := hhi x hx; simp; uomega)
+  have g1 : lo.filter (fun x => decide (A + 1 ≤ x)) = [] :=
+    List.filter_eq_nil_iff.mpr (fun x hx => by have := hlo x hx; simp; uomega)
+  have g2 : hi.filter (fun x => decide (A + 1 ≤ x)) = hi :=
+    List.filter_eq_self.mpr (fun x hx => by have := hhi x hx; simp; uomega)
+  have g3 : lo.filter (fun x => decide (x < A + 1)) = lo :=
+    List.filter_eq_self.mpr (fun x hx => by have := hlo x hx; simp; uomega)
+  have g4 : hi.filter (fun x => decide (x < A + 1)) = [] :=
+    List.filter_eq_nil_iff.mpr (fun x hx => by have := hhi x hx; simp; uomega)
+  unfold rot
+  simp only [List.filter_append, List.filter_cons, f1, f2, f3, f4, g1, g2, g3, g4]
+  simp
+
+theorem rot_of_ge (A : Nat) (L : List Uid) (h : ∀ x ∈ L, A ≤ x) : rot A L = L := by
+  unfold rot
+  rw [List.filter_eq_self.mpr (fun x hx => by simpa using h x hx),
+    List.filter_eq_nil_iff.mpr (fun x hx => by have := h x hx; simp; uomega)]
+  simp
+
+theorem rot_of_lt (A : Nat) (L : List Uid) (h : ∀ x ∈ L, x < A) : rot A L = L := by
+  unfold rot
+  rw [List.filter_eq_nil_iff.mpr (fun x hx => by have := h x hx; simp; uomega),
+    List.filter_eq_self.mpr (fun x hx => by simpa using h x hx)]
+  simp
+
+theorem nodup_of_sorted (L : List Uid) (h : L.Pairwise (· < ·)) : L.Nodup :=
+  List.nodup_iff_pairwise_ne.mpr (h.imp (fun hab => Nat.ne_of_lt hab))
+
+/-! ### completeness: what the calls made so far have established -/
+
+/-- the children list the clone of `sel[i]` is given -/
+def Lc (s : G) (sel : List Uid) (i : Nat) : List Uid := (s.children (sel.getD i 0)).filterMap (cloneOf s.n sel)
+def tgtP (s : G) (w : Uid) (sel : List Uid) (j : Nat) : List Uid :=
+  (s.preds (sel.getD j 0)).filterMap (linkTarget s w s.n sel)
+def tgtS (s : G) (w : Uid) (sel : List Uid) (j : Nat) : List Uid :=
+  (s.succs (sel.getD j 0)).filterMap (linkTarget s w s.n sel)
+
+/-- the selection is in pre-order: the clones of the children of a task have increasing uids, all above the
+    uid of the clone of the task -/
+structure PreOK (s : G) (sel : List Uid) : Prop where
+  sorted : ∀ i, i < sel.length → (Lc s sel i).Pairwise (· < ·)
+  above : ∀ i, i < sel.length → ∀ v ∈ Lc s sel i, s.n + i < v
+
+theorem mem_Lc {s : G} {w : Uid} {sel : List Uid} (ok : SelOK s w sel) (i : Nat) (v : Uid) :
+    v ∈ Lc s sel i ↔ IsClone s sel v ∧ s.parent (src s sel v) = some (sel.getD i 0) := by
+  constructor
+  · exact childrenArg_ok s ok.inv.wf sel _ v
+  · rintro ⟨hv, hp⟩
+    exact List.mem_filterMap.mpr ⟨src s sel v, (ok.inv.wf.listed _ _).mp hp, hv.cloneOf_src ok⟩
+
+theorem SelOK.getD_inj {s : G} {w : Uid} {sel : List Uid} (ok : SelOK s w sel) (i j : Nat) (hi : i < sel.length)
+    (hj : j < sel.length) (h : sel.getD i 0 = sel.getD j 0) : i = j := by
+  have h1 := ok.cloneOf_getD i hi
+  have h2 := ok.cloneOf_getD j hj
+  rw [h, h2] at h1
+  have := Option.some.inj h1
+  omega
+
+theorem Lc_disjoint {s : G} {w : Uid} {sel : List Uid} (ok : SelOK s w sel) (i j : Nat) (hi : i < sel.length)
+    (hj : j < sel.length) (v : Uid) (h1 : v ∈ Lc s sel i) (h2 : v ∈ Lc s sel j) : i = j := by
+  have a := ((mem_Lc ok i v).mp h1).2
+  have b := ((mem_Lc ok j v).mp h2).2
+  rw [a] at b
+  exact ok.getD_inj i j hi hj (Option.some.inj b)
+
+theorem linkTarget_member {s : G} {w : Uid} {sel : List Uid} (ok : SelOK s w sel) (j : Nat) (hj : j < sel.length) :
+    linkTarget s w s.n sel (sel.getD j 0) = some (s.n + j) := by
+  unfold linkTarget
+  rw [if_pos (ok.mem _ (getD_mem sel j hj)).1]
+  exact ok.cloneOf_getD j hj
+
+theorem mem_tgtP_clone {s : G} {w : Uid} {sel : List Uid} (ok : SelOK s w sel) (j m : Nat) (hj : j < sel.length)
+    (h : sel.getD j 0 ∈ s.preds (sel.getD m 0)) : s.n + j ∈ tgtP s w sel m :=
+  List.mem_filterMap.mpr ⟨_, h, linkTarget_member ok j hj⟩
+
+theorem mem_tgtS_clone {s : G} {w : Uid} {sel : List Uid} (ok : SelOK s w sel) (j m : Nat) (hj : j < sel.length)
+    (h : sel.getD j 0 ∈ s.succs (sel.getD m 0)) : s.n + j ∈ tgtS s w sel m :=
+  List.mem_filterMap.mpr ⟨_, h, linkTarget_member ok j hj⟩
+
+structure Complete (s : G) (w : Uid) (sel : List Uid) (a b c d : Nat) (g : G) : Prop where
+  cc : ∀ i, i < b → g.children (s.n + i) = rot (s.n + a) (Lc s sel i)
+  cp : ∀ j, j < c → ∀ v ∈ tgtP s w sel j, v ∈ g.preds (s.n + j)
+  cs : ∀ j, j < d → ∀ v ∈ tgtS s w sel j, v ∈ g.succs (s.n + j)
+
+theorem pubParent_of_parent (s : G) (t p : Uid) (h : s.parent t = some p) (hp : s.hidden p = false) :
+    s.pubParent t = some p := by
+  unfold G.pubParent
+  rw [h]
+  simp [hp]
+
+section steps
+variable {s : G} {w : Uid} {sel : List Uid}
+
+theorem Complete.step1 (ok : SelOK s w sel) (pk : PreOK s sel) (m : Nat) (hm : m < sel.length) (g : G)
+    (hs : Sound s w sel g) (hc : Complete s w sel m m m m g) :
+    Complete s w sel (m + 1) m m m
+      (setParent g (s.n + m) ((s.pubParent (sel.getD m 0)).bind (cloneOf s.n sel))).1 := by
+  have hcl : IsClone s sel (s.n + m) := ⟨m, hm, rfl⟩
+  have hsrc : src s sel (s.n + m) = sel.getD m 0 := src_clone s sel m
+  have hw := hs.ci.1.wf
+  have hp : ∀ q, (s.pubParent (sel.getD m 0)).bind (cloneOf s.n sel) = some q →
+      IsClone s sel q ∧ s.parent (src s sel (s.n + m)) = some (src s sel q) := by
+    intro q hq
+    rw [hsrc]; exact parentArg_ok s sel _ q hq
+  have hacc := hs.setParent_ok ok hcl _ hp
+  have hlinks := setParent_links g (s.n + m) ((s.pubParent (sel.getD m 0)).bind (cloneOf s.n sel))
+  refine ⟨?_, ?_, ?_⟩
+  · intro i hi
+    have hik : i < sel.length := Nat.lt_trans hi hm
+    have hold := hc.cc i hi
+    -- the uniform part: the clone of `sel[m]` is not a child of the clone of `sel[i]`
+    have hnot : s.n + m ∉ Lc s sel i → ((g.children (s.n + i)).erase (s.n + m)) = rot (s.n + (m + 1)) (Lc s sel i) := by
+      intro hn
+      rw [hold, List.erase_of_not_mem (fun hx => hn ((mem_rot _ _ _).mp hx))]
+      exact (rot_succ_of_not_mem (s.n + m) _ hn).symm
+    cases hpe : (s.pubParent (sel.getD m 0)).bind (cloneOf s.n sel) with
+    | none =>
+      rw [hpe] at hacc
+      have eff := setParentNone_effect g (s.n + m) hw (hs.owner_none ok hcl)
+      show (setParentNone g (s.n + m)).1.children (s.n + i) = _
+      rw [eff.2.2.1]
+      apply hnot
+      intro hx
+      have h1 := ((mem_Lc ok i _).mp hx).2
+      rw [hsrc] at h1
+      have h2 := pubParent_of_parent s _ _ h1 (ok.mem _ (getD_mem sel i hik)).2.1
+      rw [h2] at hpe
+      simp only [Option.bind_some] at hpe
+      rw [ok.cloneOf_getD i hik] at hpe
+      cases hpe
+    | some q =>
+      rw [hpe] at hacc
+      obtain ⟨hq, hpq⟩ := hp q hpe
+      have hacc' : setParentSome g (s.n + m) q = ((setParentSome g (s.n + m) q).1, none) := by
+        have : (setParentSome g (s.n + m) q).2 = none := hacc
+        rw [← this]
+      have eff := setParentSome_effect g _ (s.n + m) q hw hacc'
+      show (setParentSome g (s.n + m) q).1.children (s.n + i) = _
+      rw [eff.2.1]
+      by_cases e : s.n + i = q
+      · rw [if_pos e, ← e, hold]
+        have hmem : s.n + m ∈ Lc s sel i := by
+          refine (mem_Lc ok i _).mpr ⟨hcl, ?_⟩
+          rw [hpq, ← e, src_clone]
+        exact rot_succ_of_mem (s.n + m) _ hmem (pk.sorted i hik)
+      · rw [if_neg e]
+        apply hnot
+        intro hx
+        have h1 := ((mem_Lc ok i _).mp hx).2
+        rw [hpq] at h1
+        have h2 : src s sel q = src s sel (s.n + i) := by rw [src_clone]; exact Option.some.inj h1
+        exact e (IsClone.src_inj ok hq ⟨i, hik, rfl⟩ h2).symm
+  · intro j hj v hv
+    rw [hlinks.1]; exact hc.cp j hj v hv
+  · intro j hj v hv
+    rw [hlinks.2]; exact hc.cs j hj v hv
+
+theorem Complete.step2 (ok : SelOK s w sel) (pk : PreOK s sel) (m : Nat) (hm : m < sel.length) (g : G)
+    (hs : Sound s w sel g) (hc : Complete s w sel (m + 1) m m m g) :
+    Complete s w sel (m + 1) (m + 1) m m (setChildren g (s.n + m) (Lc s sel m)).1 := by
+  have hcl : IsClone s sel (s.n + m) := ⟨m, hm, rfl⟩
+  have hsrc : src s sel (s.n + m) = sel.getD m 0 := src_clone s sel m
+  have hw := hs.ci.1.wf
+  have hl : ∀ v ∈ Lc s sel m, IsClone s sel v ∧ s.parent (src s sel v) = some (src s sel (s.n + m)) := by
+    intro v hv
+    rw [hsrc]; exact (mem_Lc ok m v).mp hv
+  have hacc := hs.setChildren_ok ok hcl _ hl
+  have hacc' : setChildren g (s.n + m) (Lc s sel m) = ((setChildren g (s.n + m) (Lc s sel m)).1, none) := by
+    rw [← hacc]
+  have eff := setChildren_effect g _ (s.n + m) (Lc s sel m) hw
+    (fun v hv => hs.hidden_clone ok (hl v hv).1) (nodup_of_sorted _ (pk.sorted m hm)) hacc'
+  have hlinks := setChildren_links g (s.n + m) (Lc s sel m)
+  refine ⟨?_, ?_, ?_⟩
+  · intro i hi
+    rw [eff.2.1]
+    by_cases e : i = m
+    · subst e
+      rw [if_pos rfl]
+      exact (rot_of_ge _ _ (fun x hx => by have := pk.above i hm x hx; uomega)).symm
+    · have him : i < m := by omega
+      rw [if_neg (by uomega), hc.cc i him]
+      apply List.filter_eq_self.mpr
+      intro x hx
+      have hx' := (mem_rot _ _ _).mp hx
+      have : x ∉ Lc s sel m := fun h2 => e (Lc_disjoint ok i m (Nat.lt_trans him hm) hm x hx' h2)
+      simpa using this
+  · intro j hj v hv
+    rw [hlinks.1]; exact hc.cp j hj v hv
+  · intro j hj v hv
+    rw [hlinks.2]; exact hc.cs j hj v hv
+
+theorem setPreds_eq_of_ok (g : G) (c : Uid) (l : List Uid) (h : (setPreds g c l).2 = none) :
+    (setPreds g c l).1 = mutPreds g c l := by
+  rcases setPreds_cases g c l with ⟨e, he⟩ | he
+  · rw [he] at h; cases h
+  · rw [he]
+
+theorem setSuccs_eq_of_ok (g : G) (c : Uid) (l : List Uid) (h : (setSuccs g c l).2 = none) :
+    (setSuccs g c l).1 = mutSuccs g c l := by
+  rcases setSuccs_cases g c l with ⟨e, he⟩ | he
+  · rw [he] at h; cases h
+  · rw [he]
+
+theorem Complete.step3 (ok : SelOK s w sel) (m : Nat) (hm : m < sel.length) (g : G)
+    (hs : Sound s w sel g) (hc : Complete s w sel (m + 1) (m + 1) m m g) :
+    Complete s w sel (m + 1) (m + 1) (m + 1) m (setPreds g (s.n + m) (tgtP s w sel m)).1 := by
+  have hcl : IsClone s sel (s.n + m) := ⟨m, hm, rfl⟩
+  have hsrc : src s sel (s.n + m) = sel.getD m 0 := src_clone s sel m
+  have hl : ∀ v ∈ tgtP s w sel m, (IsClone s sel v ∨ Outside s w v) ∧ src s sel v ∈ s.preds (src s sel (s.n + m)) := by
+    intro v hv
+    rw [hsrc]; exact predsArg_ok s ok.inv w sel _ v hv
+  have hacc := hs.setPreds_ok ok hcl _ (fun v hv => (hl v hv).2)
+  have heq := setPreds_eq_of_ok g _ _ hacc
+  refine ⟨?_, ?_, ?_⟩
+  · intro i hi
+    rw [(setPreds_hier g _ _).2.1]; exact hc.cc i hi
+  · intro j hj v hv
+    rw [heq]
+    show v ∈ upd g.preds (s.n + m) (tgtP s w sel m) (s.n + j)
+    by_cases e : j = m
+    · subst e; rw [upd_same]; exact hv
+    · rw [upd_other _ _ _ _ (by uomega)]
+      exact hc.cp j (by omega) v hv
+  · intro j hj v hv
+    rw [heq]
+    refine (mem_mirror (g.succs (s.n + j)) (s.n + m) (s.n + j) v (tgtP s w sel m) (g.preds (s.n + m))).mpr ?_
+    have hold := hc.cs j hj v hv
+    by_cases e : v = s.n + m
+    · right
+      refine ⟨e, Or.inl ?_⟩
+      have h1 := (succsArg_ok s ok.inv w sel _ v hv).2
+      rw [e, hsrc] at h1
+      exact mem_tgtP_clone ok j m (Nat.lt_trans hj hm) ((ok.inv.wf.sym _ _).mpr h1)
+    · exact Or.inl ⟨e, hold⟩
+
+theorem Complete.step4 (ok : SelOK s w sel) (m : Nat) (hm : m < sel.length) (g : G)
+    (hs : Sound s w sel g) (hc : Complete s w sel (m + 1) (m + 1) (m + 1) m g) :
+    Complete s w sel (m + 1) (m + 1) (m + 1) (m + 1) (setSuccs g (s.n + m) (tgtS s w sel m)).1 := by
+  have hcl : IsClone s sel (s.n + m) := ⟨m, hm, rfl⟩
+  have hsrc : src s sel (s.n + m) = sel.getD m 0 := src_clone s sel m
+  have hl : ∀ v ∈ tgtS s w sel m, (IsClone s sel v ∨ Outside s w v) ∧ src s sel v ∈ s.succs (src s sel (s.n + m)) := by
+    intro v hv
+    rw [hsrc]; exact succsArg_ok s ok.inv w sel _ v hv
+  have hacc := hs.setSuccs_ok ok hcl _ (fun v hv => (hl v hv).2)
+  have heq := setSuccs_eq_of_ok g _ _ hacc
+  refine ⟨?_, ?_, ?_⟩
+  · intro i hi
+    rw [(setSuccs_hier g _ _).2.1]; exact hc.cc i hi
+  · intro j hj v hv
+    rw [heq]
+    refine (mem_mirror (g.preds (s.n + j)) (s.n + m) (s.n + j) v (tgtS s w sel m) (g.succs (s.n + m))).mpr ?_
+    have hold := hc.cp j hj v hv
+    by_cases e : v = s.n + m
+    · right
+      refine ⟨e, Or.inl ?_⟩
+      have h1 := (predsArg_ok s ok.inv w sel _ v hv).2
+      rw [e, hsrc] at h1
+      exact mem_tgtS_clone ok j m (by omega) ((ok.inv.wf.sym _ _).mp h1)
+    · exact Or.inl ⟨e, hold⟩
+  · intro j hj v hv
+    rw [heq]
+    show v ∈ upd g.succs (s.n + m) (tgtS s w sel m) (s.n + j)
+    by_cases e : j = m
+    · subst e; rw [upd_same]; exact hv
+    · rw [upd_other _ _ _ _ (by uomega)]
+      exact hc.cs j (by omega) v hv
+
+end steps
+
+/-- the four calls for one task: accepted, sound, and one more task completed -/
+theorem Complete.task_step {s : G} {w : Uid} {sel : List Uid} (ok : SelOK s w sel) (pk : PreOK s sel) (m : Nat)
+    (hm : m < sel.length) (g : G) (h : Sound s w sel g ∧ Complete s w sel m m m m g) :
+    (seqOps id g (perTask s w sel (sel.getD m 0))).2 = none ∧
+    (Sound s w sel (seqOps id g (perTask s w sel (sel.getD m 0))).1 ∧
+     Complete s w sel (m + 1) (m + 1) (m + 1) (m + 1) (seqOps id g (perTask s w sel (sel.getD m 0))).1) := by
+  rw [ok.perTask_eq m hm]
+  have hc : IsClone s sel (s.n + m) := ⟨m, hm, rfl⟩
+  have hsrc : src s sel (s.n + m) = sel.getD m 0 := src_clone s sel m
+  refine seqOps_four (fun g => Sound s w sel g ∧ Complete s w sel m m m m g)
+    (fun g => Sound s w sel g ∧ Complete s w sel (m + 1) m m m g)
+    (fun g => Sound s w sel g ∧ Complete s w sel (m + 1) (m + 1) m m g)
+    (fun g => Sound s w sel g ∧ Complete s w sel (m + 1) (m + 1) (m + 1) m g)
+    (fun g => Sound s w sel g ∧ Complete s w sel (m + 1) (m + 1) (m + 1) (m + 1) g) _ _ _ _
+    ?_ ?_ ?_ ?_ g h
+  · intro g ⟨h, hcp⟩
+    have hp : ∀ q, (s.pubParent (sel.getD m 0)).bind (cloneOf s.n sel) = some q →
+        IsClone s sel q ∧ s.parent (src s sel (s.n + m)) = some (src s sel q) := by
+      intro q hq
+      rw [hsrc]; exact parentArg_ok s sel _ q hq
+    exact ⟨h.setParent_ok ok hc _ hp, h.setParent_sound ok hc _ hp, Complete.step1 ok pk m hm g h hcp⟩
+  · intro g ⟨h, hcp⟩
+    have hl : ∀ v ∈ (s.children (sel.getD m 0)).filterMap (cloneOf s.n sel),
+        IsClone s sel v ∧ s.parent (src s sel v) = some (src s sel (s.n + m)) := by
+      intro v hv
+      rw [hsrc]; exact childrenArg_ok s ok.inv.wf sel _ v hv
+    exact ⟨h.setChildren_ok ok hc _ hl, h.setChildren_sound ok hc _ hl, Complete.step2 ok pk m hm g h hcp⟩
+  · intro g ⟨h, hcp⟩
+    have hl : ∀ v ∈ (s.preds (sel.getD m 0)).filterMap (linkTarget s w s.n sel),
+        (IsClone s sel v ∨ Outside s w v) ∧ src s sel v ∈ s.preds (src s sel (s.n + m)) := by
+      intro v hv
+      rw [hsrc]; exact predsArg_ok s ok.inv w sel _ v hv
+    exact ⟨h.setPreds_ok ok hc _ (fun v hv => (hl v hv).2), h.setPreds_sound ok hc _ hl,
+      Complete.step3 ok m hm g h hcp⟩
+  · intro g ⟨h, hcp⟩
+    have hl : ∀ v ∈ (s.succs (sel.getD m 0)).filterMap (linkTarget s w s.n sel),
+        (IsClone s sel v ∨ Outside s w v) ∧ src s sel v ∈ s.succs (src s sel (s.n + m)) := by
+      intro v hv
+      rw [hsrc]; exact succsArg_ok s ok.inv w sel _ v hv
+    exact ⟨h.setSuccs_ok ok hc _ (fun v hv => (hl v hv).2), h.setSuccs_sound ok hc _ hl,
+      Complete.step4 ok m hm g h hcp⟩
+
+/-- the state before the final call: sound, and every task completed -/
+theorem perTask_all_complete {s : G} {w : Uid} {sel : List Uid} (ok : SelOK s w sel) (pk : PreOK s sel) :
+    (seqOps id (extend s sel) (sel.flatMap (perTask s w sel))).2 = none ∧
+    Sound s w sel (seqOps id (extend s sel) (sel.flatMap (perTask s w sel))).1 ∧
+    Complete s w sel sel.length sel.length sel.length sel.length
+      (seqOps id (extend s sel) (sel.flatMap (perTask s w sel))).1 := by
+  have := seqOps_flatMap (fun m g => Sound s w sel g ∧ Complete s w sel m m m m g) (perTask s w sel) sel 0
+    (extend s sel) ?_ ⟨Sound.extend ok, ⟨fun i hi => absurd hi (Nat.not_lt_zero i),
+      fun i hi => absurd hi (Nat.not_lt_zero i), fun i hi => absurd hi (Nat.not_lt_zero i)⟩⟩
+  · simpa using this
+  · intro i t g hi hq
+    obtain ⟨hi', rfl⟩ := getElem?_getD sel i t hi
+    rw [Nat.zero_add] at hq ⊢
+    exact Complete.task_step ok pk i hi' g hq
+
+/-! ### the final call: the new WBS root adopts the clones of the roots -/
+
+/-- what independence of the roots provides -/
+structure RootsOK (s : G) (sel roots : List Uid) : Prop where
+  nodup : roots.Nodup
+  mem : ∀ r ∈ roots, r ∈ sel
+  top : ∀ r ∈ roots, ∀ p, s.parent r = some p → p ∉ sel
+  cover : ∀ t ∈ sel, t ∈ roots ∨ ∃ p ∈ sel, s.parent t = some p
+
+/-- the mirrored structure, as propositions -/
+structure Mirror (s : G) (w : Uid) (sel roots : List Uid) (g : G) : Prop where
+  children : ∀ i, i < sel.length → g.children (s.n + i) = Lc s sel i
+  rootChildren : g.children (s.n + sel.length) = roots.filterMap (cloneOf s.n sel)
+  rootHidden : g.hidden (s.n + sel.length) = true
+  rootOwner : g.owner (s.n + sel.length) = some (s.n + sel.length)
+  owner : ∀ i, i < sel.length → g.owner (s.n + i) = some (s.n + sel.length)
+  parentIn : ∀ j i, j < sel.length → i < sel.length → s.parent (sel.getD j 0) = some (sel.getD i 0) →
+    g.parent (s.n + j) = some (s.n + i)
+  parentTop : ∀ j, j < sel.length → sel.getD j 0 ∈ roots → g.parent (s.n + j) = some (s.n + sel.length)
+  predsIn : ∀ j, j < sel.length → ∀ v ∈ tgtP s w sel j, v ∈ g.preds (s.n + j)
+  succsIn : ∀ j, j < sel.length → ∀ v ∈ tgtS s w sel j, v ∈ g.succs (s.n + j)
+  predsOut : ∀ j, j < sel.length → ∀ v ∈ g.preds (s.n + j), v ∈ tgtP s w sel j
+  succsOut : ∀ j, j < sel.length → ∀ v ∈ g.succs (s.n + j), v ∈ tgtS s w sel j
+
+theorem filterMap_cloneOf_nodup (s : G) (sel : List Uid) (l : List Uid)
+    (hl : l.Nodup) : (l.filterMap (cloneOf s.n sel)).Nodup := by
+  rw [List.nodup_iff_pairwise_ne] at hl ⊢
+  refine List.Pairwise.filterMap _ ?_ hl
+  intro a a' hne b hb b' hb' e
+  subst e
+  have h1 := (cloneOf_src s sel a b hb).2
+  have h2 := (cloneOf_src s sel a' b hb').2
+  exact hne (h1.symm.trans h2)
+
+/-- an old uid in the link list of a clone is a task outside the source WBS -/
+theorem Sound.link_target {s : G} {w : Uid} {sel : List Uid} {g : G} (h : Sound s w sel g) (ok : SelOK s w sel)
+    (a c : Uid) (hc : IsClone s sel c) (hl : a ∈ g.preds c ∨ a ∈ g.succs c) :
+    linkTarget s w s.n sel (src s sel a) = some a := by
+  have hw := h.ci.1.wf
+  by_cases ha : s.n ≤ a
+  · have hacl : IsClone s sel a := by
+      rcases hl with hl | hl
+      · exact (h.link_fresh a c hl).1 ha
+      · exact (h.link_fresh c a ((hw.sym c a).mpr hl)).2 ha
+    unfold linkTarget
+    rw [if_pos (ok.mem _ hacl.src_mem).1]
+    exact hacl.cloneOf_src ok
+  · have ha' : a < s.n := Nat.lt_of_not_le ha
+    rw [src_lt s sel a ha']
+    unfold linkTarget
+    have hno : s.owner a ≠ some w := by
+      intro ho
+      have hm := h.fr.2.member a ha' ho
+      have hcge := hc.ge
+      rcases hl with hl | hl
+      · have : c ∈ g.succs a := (hw.sym a c).mp hl
+        rw [hm.2] at this
+        have := (ok.inv.bnd.succs a c this).2
+        uomega
+      · have : c ∈ g.preds a := (hw.sym c a).mpr hl
+        rw [hm.1] at this
+        have := (ok.inv.bnd.preds a c this).2
+        uomega
+    rw [if_neg hno]
+
+theorem final_mirror {s : G} {w : Uid} {sel roots : List Uid} (ok : SelOK s w sel) (pk : PreOK s sel)
+    (rk : RootsOK s sel roots) (g : G) (hs : Sound s w sel g)
+    (hc : Complete s w sel sel.length sel.length sel.length sel.length g) :
+    Mirror s w sel roots (setChildren g (s.n + sel.length) (roots.filterMap (cloneOf s.n sel))).1 := by
+  have hw := hs.ci.1.wf
+  have hlr : ∀ v ∈ roots.filterMap (cloneOf s.n sel), IsClone s sel v := filterMap_cloneOf_isClone s sel roots
+  have hacc := hs.final_ok ok _ hlr
+  have hacc' : setChildren g (s.n + sel.length) (roots.filterMap (cloneOf s.n sel)) =
+      ((setChildren g (s.n + sel.length) (roots.filterMap (cloneOf s.n sel))).1, none) := by rw [← hacc]
+  have eff := setChildren_effect g _ _ _ hw (fun v hv => hs.hidden_clone ok (hlr v hv))
+    (filterMap_cloneOf_nodup s sel roots rk.nodup) hacc'
+  have hk : OpKind s w sel (fun g => setChildren g (s.n + sel.length) (roots.filterMap (cloneOf s.n sel))) :=
+    OpKind.chi _ _ (Or.inr rfl) hlr
+  have hci := hk.cinv (Sound.isClone_visible ok) g hs.ci
+  -- abbreviate the final state
+  generalize (setChildren g (s.n + sel.length) (roots.filterMap (cloneOf s.n sel))).1 = g' at eff hci
+  obtain ⟨_, effc, effp, effs⟩ := eff
+  have hw' := hci.1.wf
+  have hrootsrc : ∀ v ∈ roots.filterMap (cloneOf s.n sel), src s sel v ∈ roots := by
+    intro v hv
+    obtain ⟨r, hr, hrv⟩ := List.mem_filterMap.mp hv
+    rw [(cloneOf_src s sel r v hrv).2]; exact hr
+  have hrootmem : ∀ j, j < sel.length → sel.getD j 0 ∈ roots → s.n + j ∈ roots.filterMap (cloneOf s.n sel) :=
+    fun j hj hr => List.mem_filterMap.mpr ⟨_, hr, ok.cloneOf_getD j hj⟩
+  have hchildren : ∀ i, i < sel.length → g'.children (s.n + i) = Lc s sel i := by
+    intro i hi
+    rw [effc, if_neg (by uomega), hc.cc i hi]
+    have hlt : ∀ x ∈ Lc s sel i, x < s.n + sel.length := by
+      intro x hx
+      obtain ⟨j, hj, rfl⟩ := ((mem_Lc ok i x).mp hx).1
+      uomega
+    rw [rot_of_lt _ _ hlt]
+    apply List.filter_eq_self.mpr
+    intro x hx
+    have : x ∉ roots.filterMap (cloneOf s.n sel) := by
+      intro hxr
+      exact rk.top _ (hrootsrc x hxr) _ ((mem_Lc ok i x).mp hx).2 (getD_mem sel i hi)
+    simpa using this
+  have hrootch : g'.children (s.n + sel.length) = roots.filterMap (cloneOf s.n sel) := by
+    rw [effc, if_pos rfl]
+  have hrh : g'.hidden (s.n + sel.length) = true := by
+    rw [hci.hidden]; exact extend_hidden_root s sel
+  have hparIn : ∀ j i, j < sel.length → i < sel.length → s.parent (sel.getD j 0) = some (sel.getD i 0) →
+      g'.parent (s.n + j) = some (s.n + i) := by
+    intro j i hj hi hp
+    apply (hw'.listed _ _).mpr
+    rw [hchildren i hi]
+    exact (mem_Lc ok i _).mpr ⟨⟨j, hj, rfl⟩, by rw [src_clone]; exact hp⟩
+  have hparTop : ∀ j, j < sel.length → sel.getD j 0 ∈ roots → g'.parent (s.n + j) = some (s.n + sel.length) := by
+    intro j hj hr
+    apply (hw'.listed _ _).mpr
+    rw [hrootch]
+    exact hrootmem j hj hr
+  have hro : g'.owner (s.n + sel.length) = some (s.n + sel.length) := hci.1.own.root _ hrh
+  have howner : ∀ i, i < sel.length → g'.owner (s.n + i) = some (s.n + sel.length) := by
+    intro i
+    induction i using Nat.strongRecOn with
+    | _ i ih =>
+      intro hi
+      rcases rk.cover _ (getD_mem sel i hi) with hr | ⟨p, hp, hpar⟩
+      · rw [hci.1.own.inherit _ _ (hparTop i hi hr)]; exact hro
+      · obtain ⟨j, hj, hpj⟩ := List.mem_iff_getElem.mp hp
+        have hpj' : sel.getD j 0 = p := by rw [getD_eq_getElem' sel j hj]; exact hpj
+        rw [← hpj'] at hpar
+        have hji : j < i := by
+          have h1 : s.n + i ∈ Lc s sel j := (mem_Lc ok j _).mpr ⟨⟨i, hi, rfl⟩, by rw [src_clone]; exact hpar⟩
+          have := pk.above j hj _ h1
+          uomega
+        rw [hci.1.own.inherit _ _ (hparIn i j hi hj hpar)]
+        exact ih j hji hj
+  -- links: the final call does not touch them
+  have hsound_dep : ∀ a b, a ∈ g'.preds b → src s sel a ∈ s.preds (src s sel b) := by
+    intro a b hab
+    rw [effp] at hab
+    exact hs.dep a b hab
+  refine ⟨hchildren, hrootch, hrh, hro, howner, hparIn, hparTop, ?_, ?_, ?_, ?_⟩
+  · intro j hj v hv
+    rw [effp]; exact hc.cp j hj v hv
+  · intro j hj v hv
+    rw [effs]; exact hc.cs j hj v hv
+  · intro j hj v hv
+    rw [effp] at hv
+    have hcl : IsClone s sel (s.n + j) := ⟨j, hj, rfl⟩
+    have h1 := hs.dep v _ hv
+    rw [src_clone] at h1
+    exact List.mem_filterMap.mpr ⟨_, h1, hs.link_target ok v _ hcl (Or.inl hv)⟩
+  · intro j hj v hv
+    rw [effs] at hv
+    have hcl : IsClone s sel (s.n + j) := ⟨j, hj, rfl⟩
+    have h1 := hs.dep _ v ((hs.ci.1.wf.sym _ _).mpr hv)
+    rw [src_clone] at h1
+    exact List.mem_filterMap.mpr ⟨_, (ok.inv.wf.sym _ _).mp h1, hs.link_target ok v _ hcl (Or.inr hv)⟩
+
+/-! ### from the mirrored structure to the executable predicates -/
+
+theorem sameSet_of_mem (a b : List Uid) (h1 : ∀ x ∈ a, x ∈ b) (h2 : ∀ x ∈ b, x ∈ a) : sameSet a b = true := by
+  unfold sameSet
+  simp only [Bool.and_eq_true, List.all_eq_true, List.contains_iff_mem]
+  exact ⟨h1, h2⟩
+
+theorem tgt_eq_linkTarget (s : G) (w : Uid) (sel : List Uid) :
+    (fun (x : Uid) => if (s.owner x == some w) = true then cloneOf s.n sel x else some x) = linkTarget s w s.n sel := by
+  funext x
+  unfold linkTarget
+  by_cases h : s.owner x = some w
+  · simp [h]
+  · simp [h]
+
+theorem Mirror.linksB {s : G} {w : Uid} {sel roots : List Uid} {g : G} (m : Mirror s w sel roots g) :
+    cloneLinksB s g w sel = true := by
+  unfold cloneLinksB
+  simp only [tgt_eq_linkTarget]
+  rw [List.all_eq_true]
+  intro i hi
+  have hi' : i < sel.length := List.mem_range.mp hi
+  rw [Bool.and_eq_true]
+  exact ⟨sameSet_of_mem _ _ (m.predsOut i hi') (m.predsIn i hi'),
+    sameSet_of_mem _ _ (m.succsOut i hi') (m.succsIn i hi')⟩
+
+theorem Mirror.hierarchyB {s : G} {w : Uid} {sel roots : List Uid} {g : G} (m : Mirror s w sel roots g)
+    (ok : SelOK s w sel) (rk : RootsOK s sel roots)
+    (htid : ∀ i, i < sel.length → g.tid (s.n + i) = s.tid (sel.getD i 0)) :
+    cloneHierarchyB s g (s.n + sel.length) sel roots = true := by
+  unfold cloneHierarchyB
+  simp only [Bool.and_eq_true, beq_iff_eq]
+  refine ⟨⟨⟨?_, m.rootChildren⟩, m.rootHidden⟩, m.rootOwner⟩
+  rw [List.all_eq_true]
+  intro i hi
+  have hi' : i < sel.length := List.mem_range.mp hi
+  simp only [Bool.and_eq_true, beq_iff_eq]
+  refine ⟨⟨⟨htid i hi', m.children i hi'⟩, m.owner i hi'⟩, ?_⟩
+  have hroot : (∀ p ∈ sel, s.parent (sel.getD i 0) ≠ some p) → g.parent (s.n + i) = some (s.n + sel.length) := by
+    intro hno
+    rcases rk.cover _ (getD_mem sel i hi') with hr | ⟨p, hp, hpar⟩
+    · exact m.parentTop i hi' hr
+    · exact absurd hpar (hno p hp)
+  cases hpp : s.pubParent (sel.getD i 0) with
+  | none =>
+    simp only [beq_iff_eq]
+    apply hroot
+    intro p hp hpar
+    rw [pubParent_of_parent s _ p hpar (ok.mem p hp).2.1] at hpp
+    cases hpp
+  | some p =>
+    have hpar := pubParent_some s _ p hpp
+    cases hco : cloneOf s.n sel p with
+    | none =>
+      simp only [hco, beq_iff_eq]
+      apply hroot
+      intro p' hp' hpar'
+      rw [hpar] at hpar'
+      have := Option.some.inj hpar'
+      subst this
+      exact (cloneOf_none_iff s.n sel p).mp hco hp'
+    | some cp =>
+      simp only [hco, beq_iff_eq]
+      obtain ⟨j, hj, rfl, hjx, _⟩ := cloneOf_some s.n sel p cp hco
+      refine m.parentIn i j hi' hj ?_
+      rw [hpar, getD_eq_getElem' sel j hj, hjx]
+
+/-! ### independent roots: the selection is a concatenation of pre-order enumerations -/
+
+theorem indep_facts (s : G) (hw : WF s) (roots : List Uid) (h : rootsIndependentB s roots = true) :
+    roots.Nodup ∧ ∀ r ∈ roots, ∀ q ∈ roots, r ≠ q → ¬ TC (par s) r q := by
+  unfold rootsIndependentB at h
+  rw [Bool.and_eq_true] at h
+  obtain ⟨h1, h2⟩ := h
+  refine ⟨nodup_of_eraseDups_length roots (by simpa [nodupB] using h1), ?_⟩
+  intro r hr q hq hne htc
+  have h3 := List.all_eq_true.mp (List.all_eq_true.mp h2 r hr) q hq
+  rw [Bool.or_eq_true] at h3
+  rcases h3 with h3 | h3
+  · exact hne (by simpa using h3)
+  · split at h3
+    · rename_i d hd
+      have : r ∈ d := (mem_descF_children s hw _ q d hd r).mpr htc
+      simp [this] at h3
+    · cases h3
+
+theorem idxOf_cons_ne' (l : List Uid) (a x : Uid) (h : x ≠ a) : (a :: l).idxOf x = l.idxOf x + 1 := by
+  rw [List.idxOf_cons]
+  have : (a == x) = false := by simpa using fun e => h e.symm
+  rw [this]; rfl
+
+theorem RootsOK.of_indep (s : G) (hi : Inv s) (roots : List Uid) (subs : List (List Uid))
+    (h : roots.mapM (fun r => subtreeF s.children s.fuel r) = some subs)
+    (hind : rootsIndependentB s roots = true) : RootsOK s (dedupFirst subs.flatten) roots := by
+  obtain ⟨hnd, hindep⟩ := indep_facts s hi.wf roots hind
+  have hmem := mem_sel_iff s hi.wf roots subs h
+  refine ⟨hnd, ?_, ?_, ?_⟩
+  · intro r hr
+    exact (hmem r).mpr ⟨r, hr, RTC.refl⟩
+  · intro r hr p hp hps
+    obtain ⟨q, hq, hpq⟩ := (hmem p).mp hps
+    have htc : TC (par s) r q := TC.of_step_RTC hp hpq
+    by_cases e : r = q
+    · subst e; exact hi.wf.forest r htc
+    · exact hindep r hr q hq e htc
+  · intro t ht
+    obtain ⟨r, hr, htr⟩ := (hmem t).mp ht
+    rcases htr.cases_eq_or_TC with e | e
+    · left; rw [e]; exact hr
+    · right
+      rcases e.head_cases with h1 | ⟨b, h1, h2⟩
+      · exact ⟨r, (hmem r).mpr ⟨r, hr, RTC.refl⟩, h1⟩
+      · exact ⟨b, (hmem b).mpr ⟨r, hr, h2.toRTC⟩, h1⟩
+
+/-- under independence the selection has no repetition even before `dedupFirst`, and it splits around every root -/
+theorem sel_structure (s : G) (hi : Inv s) (roots : List Uid) (subs : List (List Uid))
+    (h : roots.mapM (fun r => subtreeF s.children s.fuel r) = some subs)
+    (hind : rootsIndependentB s roots = true) :
+    dedupFirst subs.flatten = subs.flatten ∧ subs.flatten.Nodup ∧
+    ∀ x ∈ subs.flatten, ∃ r A B D, descF s.children s.fuel r = some D ∧
+      subs.flatten = A ++ (r :: D) ++ B ∧ (x = r ∨ x ∈ D) := by
+  obtain ⟨hnd, hindep⟩ := indep_facts s hi.wf roots hind
+  have hw := hi.wf
+  have hdesc : ∀ r, descF s.children s.fuel r = some (dsc s.children s.fuel r) := by
+    intro r
+    obtain ⟨l, hl⟩ := descF_children_total s hw hi.bnd r
+    unfold dsc; rw [hl]; rfl
+  have hsubs : subs = roots.map (fun r => r :: dsc s.children s.fuel r) := by
+    refine mapM_some_eq_map _ _ roots subs h ?_
+    intro a _ b hb
+    simp only [subtreeF, hdesc a, Option.map_some, Option.some.injEq] at hb
+    exact hb.symm
+  have hmemg : ∀ r x, x ∈ r :: dsc s.children s.fuel r → RTC (par s) x r := by
+    intro r x hx
+    rcases List.mem_cons.mp hx with rfl | hx
+    · exact RTC.refl
+    · exact ((mem_descF_children s hw _ r _ (hdesc r) x).mp hx).toRTC
+  have hndf : subs.flatten.Nodup := by
+    rw [hsubs]
+    refine flatten_map_nodup _ roots hnd ?_ ?_
+    · intro r _
+      refine List.nodup_cons.mpr ⟨?_, descF_children_nodup s hw _ r _ (hdesc r)⟩
+      intro hrr
+      exact hw.forest r ((mem_descF_children s hw _ r _ (hdesc r) r).mp hrr)
+    · intro r hr q hq hne x hx hx'
+      rcases par_chain s (hmemg r x hx) (hmemg q x hx') with h1 | h1
+      · rcases h1.cases_eq_or_TC with e | e
+        · exact hne e
+        · exact hindep r hr q hq hne e
+      · rcases h1.cases_eq_or_TC with e | e
+        · exact hne e.symm
+        · exact hindep q hq r hr (Ne.symm hne) e
+  refine ⟨eraseDups_of_nodup _ hndf, hndf, ?_⟩
+  intro x hx
+  rw [hsubs] at hx
+  obtain ⟨b, hb, hxb⟩ := List.mem_flatten.mp hx
+  obtain ⟨r, hr, rfl⟩ := List.mem_map.mp hb
+  obtain ⟨R1, R2, hsplit⟩ := List.append_of_mem hr
+  refine ⟨r, (R1.map (fun r => r :: dsc s.children s.fuel r)).flatten,
+    (R2.map (fun r => r :: dsc s.children s.fuel r)).flatten, dsc s.children s.fuel r, hdesc r, ?_, ?_⟩
+  · rw [hsubs, hsplit, flatten_map_split]
+  · exact List.mem_cons.mp hxb
+
+/-- index facts of a list that splits into pre-order enumerations -/
+theorem preorder_index (s : G) (hw : WF s) (sel : List Uid) (hnd : sel.Nodup)
+    (hsplit : ∀ x ∈ sel, ∃ r A B D, descF s.children s.fuel r = some D ∧ sel = A ++ (r :: D) ++ B ∧ (x = r ∨ x ∈ D)) :
+    (∀ x y, s.parent y = some x → x ∈ sel → sel.idxOf x < sel.idxOf y) ∧
+    (∀ p a b, p ∈ sel → a ≠ b → b ∈ s.children p → (s.children p).idxOf a < (s.children p).idxOf b →
+      sel.idxOf a < sel.idxOf b) := by
+  constructor
+  · intro x y hpar hx
+    obtain ⟨r, A, B, D, hD, hsel, hxr⟩ := hsplit x hx
+    have hxrD : x ∈ r :: D := by
+      rcases hxr with e | e
+      · rw [e]; exact List.mem_cons_self
+      · exact List.mem_cons_of_mem _ e
+    have hyD : y ∈ D := by
+      refine (mem_descF_children s hw _ r D hD y).mpr ?_
+      rcases hxr with e | e
+      · rw [← e]; exact TC.single hpar
+      · exact TC.head hpar ((mem_descF_children s hw _ r D hD x).mp e)
+    have hnd' := hnd
+    rw [hsel] at hnd' ⊢
+    have hrD : (r :: D).Nodup := (List.nodup_append.mp (List.nodup_append.mp hnd').1).2.1
+    have hyr : y ≠ r := fun e => (List.nodup_cons.mp hrD).1 (e ▸ hyD)
+    rw [idxOf_mid A (r :: D) B x hnd' hxrD, idxOf_mid A (r :: D) B y hnd' (List.mem_cons_of_mem _ hyD),
+      idxOf_cons_ne' D r y hyr]
+    rcases hxr with e | e
+    · rw [e, List.idxOf_cons_self]; omega
+    · have hxr' : x ≠ r := fun e' => (List.nodup_cons.mp hrD).1 (e' ▸ e)
+      rw [idxOf_cons_ne' D r x hxr']
+      obtain ⟨pre, post, d, hd, hDs⟩ := descF_segment s.children _ r D hD x e
+      have hyd : y ∈ d := (mem_descF_children s hw _ x d hd y).mpr (TC.single hpar)
+      have hDn : D.Nodup := (List.nodup_cons.mp hrD).2
+      have hDs' : D = pre ++ (x :: d) ++ post := hDs
+      rw [hDs'] at hDn ⊢
+      have hxd : (x :: d).Nodup := (List.nodup_append.mp (List.nodup_append.mp hDn).1).2.1
+      have hyx : y ≠ x := fun e' => (List.nodup_cons.mp hxd).1 (e' ▸ hyd)
+      rw [idxOf_mid pre (x :: d) post x hDn List.mem_cons_self,
+        idxOf_mid pre (x :: d) post y hDn (List.mem_cons_of_mem _ hyd), List.idxOf_cons_self,
+        idxOf_cons_ne' d x y hyx]
+      omega
+  · intro p a b hp hab hb hidx
+    obtain ⟨r, A, B, D, hD, hsel, hpr⟩ := hsplit p hp
+    have ha : a ∈ s.children p :=
+      List.idxOf_lt_length_iff.mp (Nat.lt_of_lt_of_le hidx List.idxOf_le_length)
+    have hchild : ∀ c, c ∈ s.children p → c ∈ D := by
+      intro c hc
+      refine (mem_descF_children s hw _ r D hD c).mpr ?_
+      have hcp : par s c p := (hw.listed c p).mpr hc
+      rcases hpr with e | e
+      · rw [← e]; exact TC.single hcp
+      · exact TC.head hcp ((mem_descF_children s hw _ r D hD p).mp e)
+    have hlt := descF_order s hw _ r D hD p a b hpr hab hidx hb
+    have hnd' := hnd
+    rw [hsel] at hnd' ⊢
+    have hrD : (r :: D).Nodup := (List.nodup_append.mp (List.nodup_append.mp hnd').1).2.1
+    have har : a ≠ r := fun e => (List.nodup_cons.mp hrD).1 (e ▸ hchild a ha)
+    have hbr : b ≠ r := fun e => (List.nodup_cons.mp hrD).1 (e ▸ hchild b hb)
+    rw [idxOf_mid A (r :: D) B a hnd' (List.mem_cons_of_mem _ (hchild a ha)),
+      idxOf_mid A (r :: D) B b hnd' (List.mem_cons_of_mem _ (hchild b hb)),
+      idxOf_cons_ne' D r a har, idxOf_cons_ne' D r b hbr]
+    omega
+
 end Pj
